@@ -2,7 +2,7 @@
    sessions, for client histories (create_stream / create_new_session / stream completions / deaths /
    reaper passes), and exactly where it stops (known finding F3: a reused session never returns to the map). *)
 From Coq Require Import List NArith ZArith Bool Lia Sorting.Sorted.
-From AnyTLS Require Import Generated GeneratedFacts Pool PoolProofs.
+From AnyTLS Require Import Generated FactsTimed Pool PoolProofs.
 Import ListNotations.
 Open Scope Z_scope.
 
